@@ -14,6 +14,7 @@
  * limitations under the License.
  */
 
+#include <unifex/detail/verif_hooks.hpp>
 #include <unifex/config.hpp>
 #if !UNIFEX_NO_EPOLL
 
@@ -221,6 +222,7 @@ void io_epoll_context::schedule_remote(operation_base* op) noexcept {
   UNIFEX_ASSERT(op->enqueued_.load() == 0);
   ++op->enqueued_;
   bool ioThreadWasInactive = remoteQueue_.enqueue(op);
+  UNIFEX_VERIF_POINT(431);
   if (ioThreadWasInactive) {
     // We were the first to queue an item and the I/O thread is not
     // going to check the queue until we signal it that new items
@@ -264,6 +266,7 @@ void io_epoll_context::execute_pending_local() noexcept {
 }
 
 void io_epoll_context::acquire_completion_queue_items() {
+  UNIFEX_VERIF_POINT(434);
   LOG("epoll_wait()");
 
   epoll_event completions[io_epoll_max_event_count];
@@ -344,7 +347,9 @@ void io_epoll_context::acquire_completion_queue_items() {
 }
 
 bool io_epoll_context::try_schedule_local_remote_queue_contents() noexcept {
+  UNIFEX_VERIF_POINT(432);
   auto queuedItems = remoteQueue_.try_mark_inactive_or_dequeue_all();
+  UNIFEX_VERIF_POINT(433);
   LOG(queuedItems.empty() ? "remote queue is empty"
                           : "registered items from remote queue");
   if (!queuedItems.empty()) {
@@ -394,6 +399,7 @@ void io_epoll_context::update_timers() noexcept {
       LOGX("dequeued elapsed timer %p\n", (void*)item);
 
       if (item->canBeCancelled_) {
+        UNIFEX_VERIF_POINT(435);
         auto oldState = item->state_.fetch_add(
             schedule_at_operation::timer_elapsed_flag,
             std::memory_order_acq_rel);
